@@ -3,7 +3,7 @@
    totals-vs-parts equations over histories are decided per run by the Go monitor + correspondence
    (they were FALSE before the fix of D4: corpus/C10/d4_duplicate_queue_entry.txt must now pass). *)
 From Coq Require Import ZArith Bool List.
-From Sge Require Import Lib.Dec Model.Types Model.Orderbook Model.Mint Model.Chain Proofs.BookFacts Proofs.Custody Proofs.BookAPI Proofs.BookInv Proofs.BookHist.
+From Sge Require Import Lib.Dec Model.Types Model.Orderbook Model.Mint Model.Chain Proofs.BookFacts Proofs.Custody Proofs.BookAPI Proofs.BookInv Proofs.BookHist Proofs.BookCover Proofs.CoverHist.
 Import ListNotations.
 Open Scope Z_scope.
 
@@ -45,3 +45,20 @@ Print Assumptions C10_book_structure.
 Theorem C10_book_step : forall P x x', pr_bet_fee P <= pr_bet_min P -> mwf x -> Local.mtrans P x x' -> mwf x'.
 Proof. exact mwf_step. Qed.
 Print Assumptions C10_book_step.
+
+(* Over ALL histories: for every participation the total stake the book reports, and per outcome the winnings promised and the
+   stakes received summed over all rounds (current exposure + archive), equal the sums over the backing parts recorded in the bets;
+   every bet is on an outcome of its market and every backing part names an existing participation of that market and its owner *)
+Theorem C10_totals : forall P bk supply vault MP t0 sw sd ops,
+  pr_bet_fee P <= pr_bet_min P ->
+  bget bk POOL = 0 -> bget bk HOUSEFEE = 0 -> bget bk BETFEE = 0 -> Forall valid_op ops ->
+  forall m x, get_ms (run (init bk supply P vault MP t0 sw sd) ops) m = Some x ->
+  (forall p, In p (bk_parts (ms_book x)) ->
+     p_tba p = stake_i (p_idx p) (bets_of x) /\
+     forall o, In o (k_odds (ms_mkt x)) ->
+       eexp (ms_book x) (p_idx p) o + hexp (hist_i (ms_book x) (p_idx p)) o = pay_io (p_idx p) o (bets_of x) /\
+       ebet (ms_book x) (p_idx p) o + hbet (hist_i (ms_book x) (p_idx p)) o = stake_io (p_idx p) o (bets_of x)) /\
+  (forall bt f, In bt (ms_bets x) -> In f (b_parts bt) ->
+     In (b_odds bt) (k_odds (ms_mkt x)) /\ exists p, get_part (ms_book x) (f_idx f) = Some p /\ p_owner p = f_owner f).
+Proof. exact totals_over_histories. Qed.
+Print Assumptions C10_totals.
